@@ -191,3 +191,43 @@ func init() {
 		os.Exit(0)
 	}
 }
+
+func init() {
+	if len(os.Args) > 2 && os.Args[1] == "plinctl" {
+		cp := loadControls()
+		r := NewReport("X", "quick")
+		ruleGen(cp, r, "R-GEN", func(f *ssa.Function) bool { return fnPkg(f) != nil && fnPkg(f).Path() == "ctl/"+os.Args[2] }, nil, 1)
+		for _, o := range r.Obls {
+			fmt.Println(o.Status, o.Key, o.Pos, o.Detail)
+		}
+		os.Exit(0)
+	}
+}
+
+func init() {
+	if len(os.Args) > 2 && os.Args[1] == "plin" {
+		p := Load(LoadOpts{Dir: repoDir(), Patterns: []string{"./..."}, ModPath: modPath, MinPkgs: 13})
+		r := NewReport("X", "quick")
+		pk := map[string]bool{}
+		for _, a := range os.Args[2:] {
+			pk[p.pkgPath(a)] = true
+		}
+		ruleGen(p, r, "R-GEN", func(f *ssa.Function) bool { return fnPkg(f) != nil && pk[fnPkg(f).Path()] }, nil, 1)
+		nb := 0
+		for _, o := range r.Obls {
+			if o.Status == Violated {
+				nb++
+				fmt.Println(o.Key, o.Pos, o.Detail[:min(len(o.Detail), 150)])
+			}
+		}
+		fmt.Println("functions:", len(r.Obls), "violated:", nb, r.Analysed)
+		os.Exit(0)
+	}
+}
+
+func min(a, b int) int {
+	if a < b {
+		return a
+	}
+	return b
+}
